@@ -181,6 +181,12 @@ func runC04(r *ev.Run) {
 				if model.Accepted() {
 					r.Add("impl_rejects_model_accepts", 1)
 					r.Distinct("impl_rejects_model_accepts_kinds", tp)
+					// tolerated: deleting one row of a strong cycle of non-root rows ("del N3 *"): the reference lets garbage collection
+					// remove the other row, now unreferenced, before judging the dangling reference; libovsdb judges first and refuses
+					// (stricter, nothing is committed). Any other transaction the reference commits must be committed
+					if tp != "del N3 *" {
+						r.Violation("c04.rejected-but-reference-commits."+tp, fmt.Sprintf("[%s] %s: refused (%s) although the reference model commits it", sname, histStr(e), ev.J(e.Res)), mkCase(sname, e, "refused", ""))
+					}
 				}
 				historyIndependence(e)
 				return
